@@ -232,6 +232,17 @@ fn emit_mut<T: Doc>(out: &mut Out, doc: &J, labels: &[&str]) {
     }));
 }
 
+fn emit_yaml<T: Doc>(out: &mut Out, text: &str) {
+    let jj: J = serde_yaml::from_str::<J>(text).expect("yaml probe reads as a tree");
+    let r = serde_yaml::from_str::<T>(text);
+    let b: Option<String> = r.as_ref().ok().map(|x| x.gal());
+    out.cases.push(format!("(Mut{} {} {})", T::CTOR, jj.gs(), gopt(&b)));
+    out.side.push(json!({
+        "kind": format!("mut_{}", T::KIND), "tag": "yaml-probe", "text": jj.text(), "yaml_text": text, "labels": ["yaml-probe"],
+        "serde_ok": r.is_ok(), "serde_err": r.as_ref().err().map(|e| e.to_string()), "has_dup": jj.has_dup(),
+    }));
+}
+
 /// One evolution: model sets T1..Tn; after each step the plan is computed, filled the way
 /// `revision` fills it, stamped (id / comment / created_at as cmd_revision does) and "written".
 fn emit_evolution(out: &mut Out, rng: &mut Rng, evo: &[Vec<TableDef>], tag: &str, evo_id: usize, history0: Vec<MigrationPlan>, supply: Option<&Vec<(String, String, String)>>) {
@@ -333,6 +344,15 @@ fn parse_mode() {
             Some(t) => t.to_string(),
             None => v.get("doc").map(|d| d.to_string()).unwrap_or_default(),
         };
+        if kind == "json2gallina" {
+            // the document as serde_json's generic parser sees it (own tree type, independent of the vespertide
+            // crates), printed as a Gallina term of coq/serde/Model/Json.v
+            match J::parse(&text) {
+                Ok(j) => println!("{}", json!({"ok": true, "gallina": j.gs(), "has_dup": j.has_dup()})),
+                Err(e) => println!("{}", json!({"ok": false, "err": e})),
+            }
+            continue;
+        }
         if kind == "yaml2json" {
             // the YAML text as the tool's own YAML library reads it, handed back as JSON
             match serde_yaml::from_str::<Value>(&text) {
@@ -429,6 +449,12 @@ fn main() {
             "table" => emit_mut::<TableDef>(&mut out, &doc, &["probe"]),
             "plan" => emit_mut::<MigrationPlan>(&mut out, &doc, &["probe"]),
             _ => emit_mut::<VespertideConfig>(&mut out, &doc, &["probe"]),
+        }
+    }
+    for (kind, text) in YAML_PROBES {
+        match *kind {
+            "table" => emit_yaml::<TableDef>(&mut out, text),
+            _ => emit_yaml::<MigrationPlan>(&mut out, text),
         }
     }
     for _ in 0..n {
@@ -535,6 +561,31 @@ const PROBES: &[(&str, &str)] = &[
     ("table", r#"{"name":"t","columns":[{"name":"c","type":"real","nullable":true,"default":1.0}]}"#),
     ("table", r#"{"name":"t","columns":[{"name":"c","type":"real","nullable":true,"default":-9223372036854775809}]}"#),
     ("table", r#"{"name":"t","columns":[{"name":"c","type":"real","nullable":true,"default":[1]}]}"#),
+    // numeric defaults at the i64 / u64 / f64 boundaries: Integer if it fits i64, else Float (z as f64)
+    ("table", r#"{"name":"t","columns":[{"name":"c","type":"big_int","nullable":true,"default":9223372036854775807}]}"#),
+    ("table", r#"{"name":"t","columns":[{"name":"c","type":"big_int","nullable":true,"default":9223372036854775808}]}"#),
+    ("table", r#"{"name":"t","columns":[{"name":"c","type":"big_int","nullable":true,"default":9223372036854776833}]}"#),
+    ("table", r#"{"name":"t","columns":[{"name":"c","type":"big_int","nullable":true,"default":18446744073709551615}]}"#),
+    ("table", r#"{"name":"t","columns":[{"name":"c","type":"big_int","nullable":true,"default":18446744073709550591}]}"#),
+    ("table", r#"{"name":"t","columns":[{"name":"c","type":"big_int","nullable":true,"default":18446744073709551616}]}"#),
+    ("table", r#"{"name":"t","columns":[{"name":"c","type":"big_int","nullable":true,"default":-9223372036854775808}]}"#),
+    ("table", r#"{"name":"t","columns":[{"name":"c","type":"real","nullable":true,"default":1.7976931348623157e308}]}"#),
+    ("table", r#"{"name":"t","columns":[{"name":"c","type":"real","nullable":true,"default":5e-324}]}"#),
+    ("plan", r#"{"version":1,"actions":[{"type":"add_column","table":"t","column":{"name":"c","type":"big_int","nullable":true,"default":18446744073709551615},"fill_with":null}]}"#),
+    ("plan", r#"{"version":1,"actions":[{"type":"create_table","table":"t","columns":[{"name":"c","type":"big_int","nullable":true,"default":9223372036854775808}],"constraints":[]}]}"#),
+];
+
+/// The same boundaries in YAML documents: the tree is what serde_yaml hands to a visitor (read through the
+/// generic J visitor), the verdict is serde_yaml's typed parse; the model decodes the tree.
+const YAML_PROBES: &[(&str, &str)] = &[
+    ("table", "name: t\ncolumns:\n- name: c\n  type: big_int\n  nullable: true\n  default: 9223372036854775807\n"),
+    ("table", "name: t\ncolumns:\n- name: c\n  type: big_int\n  nullable: true\n  default: 9223372036854775808\n"),
+    ("table", "name: t\ncolumns:\n- name: c\n  type: big_int\n  nullable: true\n  default: 18446744073709551615\n"),
+    ("table", "name: t\ncolumns:\n- name: c\n  type: big_int\n  nullable: true\n  default: -9223372036854775808\n"),
+    ("table", "name: t\ncolumns:\n- name: c\n  type: real\n  nullable: true\n  default: 1.5\n"),
+    ("table", "name: t\ncolumns:\n- name: c\n  type: text\n  nullable: true\n  default: 'true'\n"),
+    ("plan", "version: 1\nactions:\n- type: add_column\n  table: t\n  column:\n    name: c\n    type: big_int\n    nullable: true\n    default: 18446744073709551615\n  fill_with: null\n"),
+    ("plan", "version: 1\nactions:\n- type: create_table\n  table: t\n  columns:\n  - name: c\n    type: big_int\n    nullable: true\n    default: 9223372036854775808\n  constraints: []\n"),
 ];
 
 /// Minimal witnesses of the spots where Serialize is not injective (replayed on the real serde on
